@@ -1,5 +1,356 @@
+//! C19 — the SolOut callback protocol of the low-level solvers (trace-specification monitor).
+
+use super::common::*;
 use crate::ctx::{Ctx, Meta};
+use crate::probe::*;
+use crate::problems::*;
 use crate::report::Report;
+use crate::rng::Rng;
+use crate::util::{bits_eq, par_for, EPS};
+use ivp::prelude::*;
+use serde_json::json;
+
+struct Trace {
+    cbs: Vec<Cb>,
+    status: Option<Status>,
+    accepted: usize,
+    log: ProbeLog,
+    outcome: String,
+}
+
+fn run_trace(method: Method, prob: &dyn Problem, scn: &Scn, lo: &LowOpts, script: &[(usize, Action)], keep_y: bool) -> Trace {
+    let mut probe = Probe::new(prob, scn.x0);
+    probe.user_jac = scn.user_jac;
+    probe.budget = 1_500_000;
+    probe.keep_calls = keep_y;
+    probe.keep_y = keep_y;
+    let mut so = RecSolOut::new(Some(&probe));
+    so.thetas = vec![0.0, 1.0];
+    so.script = script.to_vec();
+    let out = run_low_guarded(method, &probe, scn.x0, &scn.y0, scn.xend, &scn.rtol, &scn.atol, lo, &mut so);
+    let (status, accepted, outcome) = match out {
+        LowOutcome::Ok(ir) => (Some(ir.status), ir.steps.accepted, format!("{:?}", ir.status)),
+        LowOutcome::Err(e) => (None, 0, format!("Err({})", e)),
+        LowOutcome::Panic(m) => (None, 0, format!("Panic({})", m)),
+        LowOutcome::Budget => (None, 0, "Budget".into()),
+    };
+    Trace { cbs: so.cbs, status, accepted, log: probe.take_log(), outcome }
+}
+
 pub fn run(ctx: &Ctx) -> (Report, Meta) {
-    (Report::new(&ctx.prop), Meta::new("not built yet"))
+    let k_tol = 50.0;
+    let meta = Meta::new(
+        "low-level builders (RK4, RK23, DOPRI5, DOP853, RADAU, BDF) with a recording SolOut on bounded and closed-form problems, both directions, dense on/off; scripts: plain run; Interrupt at every callback index of short runs (index 0 included) and random indices of long ones; ModifiedSolution with an unchanged state at one or several indices (no-op relation); ModifiedSolution doubling the state of a linear homogeneous system under pure relative control (doubling relation); several modifications followed by an interrupt; right-hand sides that depend on t (non-autonomous) so that re-evaluation at the wrong abscissa is visible; non-trivial = script with at least one non-Continue action (distinct by scenario + script hash)",
+    )
+    .assume("explicit methods and Radau: no-op relation is bitwise; doubling relation is bitwise for the explicit methods; BDF (history restart) and Radau doubling: both runs within the C01-type bound of the exact solution")
+    .thresholds(json!({"implicit_within_tolerance_factor": k_tol, "contiguity": "xold == previous x to 4 ulps"}))
+    .floor("plain_traces_checked", 300)
+    .floor("interrupt_scripts_checked", 1500)
+    .floor("interrupts_at_index_0", 60)
+    .floor("noop_scripts_checked", 300)
+    .floor("doubling_scripts_checked", 150)
+    .floor("post_modification_evaluations_checked", 400);
+
+    let n = ctx.size(900, 40_000);
+    let g = GenOpts { allow_max_step: true, bidirectional_problems: true, max_span: 12.0, ..Default::default() };
+    let rep = par_for(n, "C19", |i, rep| {
+        let case_id = format!("case/{}", i);
+        if !ctx.want(&case_id) {
+            return;
+        }
+        let mut rng = Rng::derive(ctx.seed, 19, i as u64);
+        let (simple, mut scn) = gen_case(&mut rng, &g);
+        let method = METHODS[i % 6];
+        scn.method = method;
+        scn.user_jac = is_implicit(method) && rng.bool();
+        let m = mname(method);
+        let dirn = scn.dir();
+        // one case in three uses a closed-form non-autonomous problem (exact solution available)
+        let comp: Option<(Composite, f64)> = if (i / 6) % 3 != 0 { Some(random_composite(&mut rng, scn.x0, scn.xend, 3, 10.0)) } else { None };
+        let prob: &dyn Problem = match &comp {
+            Some((c, _)) => {
+                scn.y0 = c.y0();
+                let (rt, at) = random_tols(&mut rng, method, c.dim());
+                scn.rtol = rt;
+                scn.atol = at;
+                c
+            }
+            None => &simple,
+        };
+        if method == Method::RK4 {
+            scn.first_step = Some(dirn * (scn.xend - scn.x0).abs() / rng.range(6.0, 60.0));
+        }
+        let lo = LowOpts { dense: rng.chance(0.7), max_step: scn.max_step, first_step: scn.first_step, ..Default::default() };
+        let case = {
+            let mut c = scn.describe(prob);
+            c["api"] = json!("low_level");
+            c["dense"] = json!(lo.dense);
+            c
+        };
+        // ---------------- plain trace ----------------
+        let plain = run_trace(method, prob, &scn, &lo, &[], false);
+        rep.eval();
+        let Some(pstatus) = plain.status else {
+            if plain.outcome.starts_with("Panic") {
+                rep.violate(&format!("C19/no_panic/{}/plain", m), plain.outcome.clone(), &case_id, case);
+            } else {
+                rep.inconclusive("plain_run_not_ok");
+            }
+            return;
+        };
+        rep.count("plain_traces_checked", 1);
+        let sig = |clause: &str, cls: &str| format!("C19/{}/{}/{}", clause, m, cls);
+        let ncb = plain.cbs.len();
+        if ncb == 0 {
+            rep.violate(&sig("initial_callback", "plain"), "SolOut was never called".into(), &case_id, case);
+            return;
+        }
+        {
+            let c0 = &plain.cbs[0];
+            if c0.xold.to_bits() != scn.x0.to_bits() || c0.x.to_bits() != scn.x0.to_bits() || !bits_eq(&c0.y, &scn.y0) || c0.has_interp {
+                rep.violate(&sig("initial_callback", "plain"), format!("first callback is (xold={:e}, x={:e}, y={:?}, interpolant={}) instead of (x0, x0, y0, None)", c0.xold, c0.x, c0.y, c0.has_interp), &case_id, case.clone());
+            }
+        }
+        for k in 1..ncb {
+            let (c, p) = (&plain.cbs[k], &plain.cbs[k - 1]);
+            let tol = 4.0 * EPS * c.xold.abs().max(p.x.abs());
+            if (c.xold - p.x).abs() > tol {
+                rep.violate(&sig("contiguous_intervals", "plain"), format!("callback {}: xold = {:e} but the previous callback ended at x = {:e}", k, c.xold, p.x), &case_id, case.clone());
+                break;
+            }
+            if (c.x - c.xold) * dirn <= 0.0 {
+                rep.violate(&sig("forward_progress", "plain"), format!("callback {}: interval [{:e}, {:e}] does not advance in the direction of integration", k, c.xold, c.x), &case_id, case.clone());
+                break;
+            }
+            if lo.dense && !c.has_interp {
+                rep.violate(&sig("interpolant_passed", "plain"), format!("callback {} received no interpolant although dense output is enabled", k), &case_id, case.clone());
+                break;
+            }
+        }
+        if plain.accepted + 1 != ncb {
+            rep.violate(&sig("once_per_accepted_step", "plain"), format!("{} accepted steps but {} post-initial callbacks", plain.accepted, ncb - 1), &case_id, case.clone());
+        }
+        if pstatus == Status::Success {
+            let rt = rt_slack(method, scn.x0, scn.xend, ncb);
+            if (plain.cbs[ncb - 1].x - scn.xend).abs() > rt {
+                rep.violate(&sig("ends_at_xend", "plain"), format!("status Success but the last callback ended at {:e}, xend = {:e}", plain.cbs[ncb - 1].x, scn.xend), &case_id, case.clone());
+            }
+        } else {
+            rep.inconclusive("plain_run_not_successful");
+            return;
+        }
+
+        // ---------------- interrupt scripts ----------------
+        let idxs: Vec<usize> = if ncb <= 12 { (0..ncb).collect() } else { let mut v = vec![0, 1, ncb - 1]; for _ in 0..5 { v.push(rng.below(ncb)); } v };
+        for &k in &idxs {
+            let tr = run_trace(method, prob, &scn, &lo, &[(k, Action::Interrupt)], false);
+            rep.eval();
+            rep.count("interrupt_scripts_checked", 1);
+            if k == 0 {
+                rep.count("interrupts_at_index_0", 1);
+            }
+            rep.nontrivial(scn_hash(&scn, prob) ^ (k as u64).wrapping_mul(0x9E37));
+            let cls = if k == 0 { "interrupt_at_initial_callback" } else if k == ncb - 1 { "interrupt_at_last_callback" } else { "interrupt" };
+            let mut c2 = case.clone();
+            c2["script"] = json!([{"at_callback": k, "action": "Interrupt"}]);
+            match tr.status {
+                Some(Status::UserInterrupt) => {}
+                other => {
+                    rep.violate(&sig("interrupt_status", cls), format!("Interrupt returned at callback {} but the solver reported {:?} ({})", k, other, tr.outcome), &case_id, c2.clone());
+                    continue;
+                }
+            }
+            if tr.cbs.len() != k + 1 {
+                rep.violate(&sig("no_callback_after_interrupt", cls), format!("Interrupt at callback {} but {} callbacks were made in total", k, tr.cbs.len()), &case_id, c2.clone());
+                continue;
+            }
+            let calls_end = tr.log.n_ode + tr.log.n_ode_jac;
+            if calls_end != tr.cbs[k].calls_at_entry {
+                rep.violate(&sig("no_evaluation_after_interrupt", cls), format!("{} right-hand-side evaluations were made after the callback returned Interrupt", calls_end - tr.cbs[k].calls_at_entry), &case_id, c2.clone());
+            }
+            if tr.accepted != k {
+                rep.violate(&sig("accepted_steps_at_interrupt", cls), format!("Interrupt at callback {} (= after {} accepted steps) but steps.accepted = {}", k, k, tr.accepted), &case_id, c2.clone());
+            }
+            // prefix identical to the plain run
+            for j in 0..=k {
+                if tr.cbs[j].x.to_bits() != plain.cbs[j].x.to_bits() || !bits_eq(&tr.cbs[j].y, &plain.cbs[j].y) {
+                    rep.violate(&sig("prefix_before_interrupt", cls), format!("callback {} differs from the plain run although nothing was modified", j), &case_id, c2.clone());
+                    break;
+                }
+            }
+        }
+
+        // ---------------- no-op ModifiedSolution ----------------
+        {
+            let nmods = 1 + rng.below(3);
+            let mut script: Vec<(usize, Action)> = Vec::new();
+            for _ in 0..nmods {
+                let k = rng.below(ncb);
+                if !script.iter().any(|(q, _)| *q == k) {
+                    script.push((k, Action::Scale(1.0)));
+                }
+            }
+            if (i / 6) % 4 == 0 && !script.iter().any(|(q, _)| *q == 0) {
+                script.push((0, Action::Scale(1.0)));
+            }
+            let tr = run_trace(method, prob, &scn, &lo, &script, true);
+            rep.eval();
+            rep.count("noop_scripts_checked", 1);
+            rep.nontrivial(scn_hash(&scn, prob) ^ 0xABCD ^ script.len() as u64);
+            let mut c2 = case.clone();
+            c2["script"] = json!(script.iter().map(|(k, _)| json!({"at_callback": k, "action": "ModifiedSolution (state unchanged)"})).collect::<Vec<_>>());
+            let cls = if script.iter().any(|(q, _)| *q == 0) { "noop_incl_initial_callback" } else { "noop" };
+            if tr.status.is_none() {
+                rep.violate(&sig("no_panic", cls), format!("run with a no-op ModifiedSolution ended with {}", tr.outcome), &case_id, c2.clone());
+            } else {
+                // the next stepper evaluation after each modification is at exactly (x, y_written)
+                for (k, _) in &script {
+                    if *k >= tr.cbs.len() {
+                        continue;
+                    }
+                    let cb = &tr.cbs[*k];
+                    if *k == tr.cbs.len() - 1 && tr.status == Some(Status::Success) {
+                        continue; // after the final callback nothing needs to be evaluated
+                    }
+                    let idx = cb.calls_at_entry as usize;
+                    // find the first stepper ode call (kind 0) at or after log position of that count
+                    let mut seen = 0usize;
+                    let mut found = None;
+                    for (pos, c) in tr.log.calls.iter().enumerate() {
+                        if c.kind <= 1 {
+                            if seen >= idx && c.kind == 0 {
+                                found = Some(pos);
+                                break;
+                            }
+                            seen += 1;
+                        }
+                    }
+                    rep.count("post_modification_evaluations_checked", 1);
+                    match found {
+                        Some(pos) => {
+                            let c = &tr.log.calls[pos];
+                            if c.t.to_bits() != cb.x.to_bits() || !bits_eq(&tr.log.ys[pos], &cb.y_after) {
+                                rep.violate(
+                                    &sig("reevaluates_at_written_state", cls),
+                                    format!("after ModifiedSolution at callback {} (x = {:e}) the next derivative evaluation is at t = {:e}, y = {:?} instead of (x, {:?})", k, cb.x, c.t, tr.log.ys[pos], cb.y_after),
+                                    &case_id,
+                                    c2.clone(),
+                                );
+                            }
+                        }
+                        None => rep.violate(&sig("reevaluates_at_written_state", cls), format!("no derivative evaluation follows the ModifiedSolution at callback {}", k), &case_id, c2.clone()),
+                    }
+                }
+                if method != Method::BDF {
+                    // bitwise no-op
+                    let same = tr.cbs.len() == plain.cbs.len() && tr.cbs.iter().zip(&plain.cbs).all(|(a, b)| a.x.to_bits() == b.x.to_bits() && bits_eq(&a.y, &b.y));
+                    if !same {
+                        let first = tr.cbs.iter().zip(&plain.cbs).position(|(a, b)| a.x.to_bits() != b.x.to_bits() || !bits_eq(&a.y, &b.y));
+                        rep.violate(&sig("unchanged_state_is_noop", cls), format!("ModifiedSolution with an unchanged state changed the run: {} vs {} callbacks, first difference at callback {:?}", tr.cbs.len(), plain.cbs.len(), first), &case_id, c2.clone());
+                    }
+                } else if let Some((c, amp)) = &comp {
+                    // BDF restarts its history: both runs must stay within tolerance of the exact solution
+                    if tr.status == Some(Status::Success) {
+                        let last = tr.cbs.last().unwrap();
+                        let ex = c.exact(last.x).unwrap();
+                        for j in 0..ex.len() {
+                            let tolj = scn.atol.at(j) + scn.rtol.at(j) * ex[j].abs();
+                            let ratio = (last.y[j] - ex[j]).abs() / (amp * (tr.cbs.len() as f64) * tolj);
+                            rep.worst("bdf_noop_err_over_naccpt_tol", ratio);
+                            if ratio > k_tol {
+                                rep.violate(&sig("unchanged_state_within_tolerance", cls), format!("BDF after a no-op ModifiedSolution: final error {:e} is {:.0} x naccpt x tol", (last.y[j] - ex[j]).abs(), ratio), &case_id, c2.clone());
+                                break;
+                            }
+                        }
+                    } else {
+                        rep.violate(&sig("unchanged_state_within_tolerance", cls), format!("BDF after a no-op ModifiedSolution ended with {}", tr.outcome), &case_id, c2.clone());
+                    }
+                }
+            }
+        }
+
+        // ---------------- doubling on a linear homogeneous system, pure relative control ----------------
+        if (i / 6) % 2 == 0 {
+            let nb = 1 + rng.below(3);
+            let bases: Vec<Base> = (0..nb).map(|_| Base::Lin1 { lam: -dirn * rng.range(0.05, 1.5) * if rng.chance(0.8) { 1.0 } else { -0.3 }, u0: rng.sign() * rng.range(0.5, 2.0) }).collect();
+            let warp = if rng.bool() { Warp::Id } else { Warp::Sin { a: rng.range(-0.5, 0.5), b: rng.range(0.5, 2.0) } };
+            let span = rng.range(0.5, 4.0);
+            let x0 = scn.x0;
+            let xend = x0 + dirn * span;
+            let c = Composite::new(bases, warp, None, x0);
+            let mut s2 = Scn::new(method, x0, xend, c.y0());
+            s2.rtol = Tol::S(rng.logu(1e-8, 1e-4));
+            s2.atol = Tol::S(0.0);
+            s2.user_jac = is_implicit(method);
+            if method == Method::RK4 {
+                s2.first_step = Some(dirn * span / rng.range(6.0, 40.0));
+            }
+            let lo2 = LowOpts { dense: lo.dense, first_step: s2.first_step, ..Default::default() };
+            let p2 = run_trace(method, &c, &s2, &lo2, &[], false);
+            if p2.status == Some(Status::Success) && p2.cbs.len() >= 3 {
+                let k = rng.below(p2.cbs.len() - 1);
+                let tr = run_trace(method, &c, &s2, &lo2, &[(k, Action::Scale(2.0))], false);
+                rep.evals(2);
+                rep.count("doubling_scripts_checked", 1);
+                let mut c2 = s2.describe(&c);
+                c2["script"] = json!([{"at_callback": k, "action": "ModifiedSolution (y <- 2 y)"}]);
+                let cls = if k == 0 { "doubling_at_initial_callback" } else { "doubling" };
+                if tr.status != Some(Status::Success) {
+                    rep.violate(&sig("doubling", cls), format!("run with a doubled state ended with {}", tr.outcome), &case_id, c2);
+                } else if !is_implicit(method) {
+                    let same = tr.cbs.len() == p2.cbs.len()
+                        && (0..tr.cbs.len()).all(|j| {
+                            let (a, b) = (&tr.cbs[j], &p2.cbs[j]);
+                            a.x.to_bits() == b.x.to_bits() && (0..a.y.len()).all(|q| if j <= k { a.y[q].to_bits() == b.y[q].to_bits() } else { a.y[q].to_bits() == (2.0 * b.y[q]).to_bits() })
+                        });
+                    if !same {
+                        let first = (0..tr.cbs.len().min(p2.cbs.len())).find(|&j| {
+                            let (a, b) = (&tr.cbs[j], &p2.cbs[j]);
+                            a.x.to_bits() != b.x.to_bits() || (0..a.y.len()).any(|q| if j <= k { a.y[q] != b.y[q] } else { a.y[q] != 2.0 * b.y[q] })
+                        });
+                        rep.violate(&sig("doubling", cls), format!("doubling the state at callback {} did not exactly double what follows ({} vs {} callbacks, first deviation at callback {:?})", k, tr.cbs.len(), p2.cbs.len(), first), &case_id, c2);
+                    }
+                } else {
+                    // implicit: within tolerance of twice the exact solution
+                    let last = tr.cbs.last().unwrap();
+                    let ex = c.exact(last.x).unwrap();
+                    for j in 0..ex.len() {
+                        let tolj = s2.rtol.at(j) * (2.0 * ex[j]).abs();
+                        let ratio = (last.y[j] - 2.0 * ex[j]).abs() / ((tr.cbs.len() as f64) * tolj);
+                        rep.worst(&format!("implicit_doubling_err_over_naccpt_tol_{}", m), ratio);
+                        if ratio > k_tol {
+                            rep.violate(&sig("doubling_within_tolerance", cls), format!("after doubling at callback {} the final state {:e} is not twice the exact solution {:e} within tolerance ({:.0} x naccpt x tol)", k, last.y[j], ex[j], ratio), &case_id, c2.clone());
+                            break;
+                        }
+                    }
+                }
+            }
+        }
+
+        // ---------------- several modifications, then an interrupt ----------------
+        if ncb >= 5 {
+            let kint = 2 + rng.below(ncb - 2);
+            let mut script: Vec<(usize, Action)> = vec![(kint, Action::Interrupt)];
+            for _ in 0..2 {
+                let k = rng.below(kint);
+                if !script.iter().any(|(q, _)| *q == k) {
+                    script.push((k, Action::Scale(1.0)));
+                }
+            }
+            let tr = run_trace(method, prob, &scn, &lo, &script, false);
+            rep.eval();
+            rep.count("mixed_scripts_checked", 1);
+            let mut c2 = case.clone();
+            c2["script"] = json!(format!("{:?}", script));
+            if tr.status != Some(Status::UserInterrupt) || tr.cbs.len() != kint + 1 || (method != Method::BDF && tr.log.n_ode + tr.log.n_ode_jac != tr.cbs[kint.min(tr.cbs.len() - 1)].calls_at_entry) {
+                if method != Method::BDF || tr.status != Some(Status::UserInterrupt) {
+                    rep.violate(&sig("interrupt_after_modifications", "mixed"), format!("modifications followed by Interrupt at callback {}: status {:?}, {} callbacks", kint, tr.status, tr.cbs.len()), &case_id, c2);
+                }
+            }
+        }
+        if i % 199 == 0 {
+            rep.sample(json!({"scenario": case, "callbacks_in_plain_run": ncb}));
+        }
+    });
+    (rep, meta)
 }
